@@ -71,9 +71,12 @@ def _matrix(kind):
 
 
 def block_benign():
+    """two states per probe: the first run (recorded in the probe's meta.json when it was delivered, i.e. before the hardening round for
+    that property) and the current state (tools/matrix.py)"""
     mx = _matrix("benign")
-    rows = ["| probe | kind of refactoring | checks raising a false alarm (exit 1) | checks undecided (exit 2) |", "|-------|---------------------|------|------|"]
-    n = fa = 0
+    rows = ["| probe | kind of refactoring | first run: false alarms (exit 1) | first run: undecided (exit 2) | now: false alarms | now: undecided |",
+            "|-------|---------------------|------|------|------|------|"]
+    n = fa0 = fa = un0 = un = 0
     for d in sorted(glob.glob(os.path.join(here, "benign", "*"))):
         mp = os.path.join(d, "meta.json")
         if not os.path.exists(mp):
@@ -81,17 +84,22 @@ def block_benign():
         m = json.load(open(mp))
         name = os.path.basename(d)
         am = m.get("agent_meta") or {}
+        first = m.get("nonzero_checks", {})
         res = (mx or {}).get("results", {}).get(name)
         if res is None:
-            res = m.get("nonzero_checks", {})
-        f1 = sorted(p for p, r in res.items() if isinstance(r, dict) and r.get("rc") == 1)
-        f2 = sorted(p for p, r in res.items() if isinstance(r, dict) and r.get("rc") == 2)
+            res = first
+        sel = lambda r_, code: sorted(p for p, r in r_.items() if isinstance(r, dict) and r.get("rc") == code)
+        a1, a2, f1, f2 = sel(first, 1), sel(first, 2), sel(res, 1), sel(res, 2)
         n += 1
+        fa0 += bool(a1)
+        un0 += bool(a2)
         fa += bool(f1)
-        rows.append("| %s | %s | %s | %s |" % (name, ((am.get("kind") or am.get("summary") or "")[:150]).replace("|", "\\|").replace("\n", " "),
-                                           ", ".join(f1) or "none", ", ".join(f2) or "none"))
+        un += bool(f2)
+        rows.append("| %s | %s | %s | %s | %s | %s |" % (name, ((am.get("kind") or am.get("summary") or "")[:110]).replace("|", "\\|").replace("\n", " "),
+                                                     ", ".join(a1) or "none", ", ".join(a2) or "none", ", ".join(f1) or "none", ", ".join(f2) or "none"))
     rows.append("")
-    rows.append("Behaviour-preserving probes: %d; probes on which some check raises a false alarm: %d." % (n, fa))
+    rows.append("Behaviour-preserving probes: %d. First run: %d probes with a false alarm from some check, %d with an undecided check. "
+                "Now: %d with a false alarm, %d with an undecided check." % (n, fa0, un0, fa, un))
     return "\n".join(rows)
 
 
